@@ -18,7 +18,7 @@ class FuncSrc:
         self.text, self.lines, self.modname = text, lines, modname
         self.sha256 = hashlib.sha256(text.encode()).hexdigest()
         self.decorators = [ast.unparse(d) for d in node.decorator_list]
-        self.loops = [n for n in _walk_fn(node) if isinstance(n, (ast.For, ast.While))]
+        self.loops = [n for n in _walk_fn(node) if isinstance(n, (ast.For, ast.AsyncFor, ast.While))]
         self.loop_ord = {id(n): i for i, n in enumerate(self.loops)}
 
     def dropped(self):
@@ -26,6 +26,8 @@ class FuncSrc:
         if self.decorators:
             d.append('decorators: ' + ', '.join(self.decorators))
         d.append('type annotations (never assumed)')
+        if isinstance(self.node, ast.AsyncFunctionDef) or any(isinstance(n, ast.AsyncFor) for n in _walk_fn(self.node)):
+            d.append('async / async for: analysed as the sequential consumption of the iterated events (no suspension point inside the function changes its own state)')
         if ast.get_docstring(self.node):
             d.append('docstring')
         return d
